@@ -289,7 +289,12 @@ def classify(c, impl, model=None):
     # (the double count the model predicts); the former class CountIgnoresTypeInMemory is repaired (dc170f4),
     # so a wrong COUNT at a quiescent observation is a violation again
     if " cnt" in why and "parked at" in why:
-        return "CountDuringFlush"
+        # ... and only as an OVER-count (rows present in the passive copy and in the segment): a COUNT below the number
+        # of applied events means events are missing from the aggregate, which no known finding explains
+        m = re.search(r"read (\d+), acknowledged (\d+)", why)
+        if m and int(m.group(1)) > int(m.group(2)):
+            return "CountDuringFlush"
+        return None
     if "parked at" in why and (" sel" in why or " rp" in why):
         # known only in the states the model marks fragile for that event type (an in-flight segment
         # without files for the type): the model's own account decides, not the mere fact of a park point
